@@ -5,6 +5,7 @@ import TantivyModel.Proofs.AggCut
 import TantivyModel.Proofs.AggExtStats
 import TantivyModel.Proofs.AggSpecPV
 import TantivyModel.Proofs.AggRange
+import TantivyModel.Proofs.AggCompTrim
 /-!
 # C14 — Aggregations equal a direct computation and do not depend on partitioning
 
@@ -353,6 +354,35 @@ theorem C14_extstats_any_schedule (σ : ℚ) (t : MTree (List ℚ)) :
   intro h0
   exact hne (List.length_eq_zero_iff.1 h0)
 
+/-- **Composite: the per-segment eviction is invisible.**  The composite collector keeps per
+segment only the first `size` buckets after the `after` key (`collect_bucket_with_limit` evicts
+the highest key; `merge_fruits` trims again).  For every partition into any number of segments
+the page returned from the trimmed fruits is the page returned from the untrimmed ones — hence,
+with `C14_finalize_collect_eq_evalAggPV` and `C14_collect_append`, the direct computation. -/
+theorem C14_composite_eviction_invisible (srcs : List CompSrc) (size : Nat) (after : Option Int) (sub : Req)
+    (parts : List (List Doc)) :
+    finalize (M := M) (.composite srcs size after sub)
+        ((parts.map (collectSegComposite (M := M) srcs size after sub)).foldl
+          (merge (.composite srcs size after sub)) (empty (.composite srcs size after sub)))
+      = evalAggPV M (.composite srcs size after sub) parts.flatten := by
+  have h := composite_eviction_invisible (M := M) srcs size after sub parts
+  have h2 : (parts.map (collect (M := M) (.composite srcs size after sub))).foldl
+      (merge (.composite srcs size after sub)) (empty (.composite srcs size after sub))
+      = collect (.composite srcs size after sub) parts.flatten :=
+    fold_parts (merge (.composite srcs size after sub)) (empty (.composite srcs size after sub)) (merge_assoc _)
+      (merge_comm _) (empty_merge _) (collect (.composite srcs size after sub)) (collect_nil _) (collect_append _) parts
+  show finalize (M := M) (.composite srcs size after sub)
+      ((parts.map (fun p => compTrim size after (collect (M := M) (.composite srcs size after sub) p))).foldl _ _) = _
+  rw [h, h2]
+  exact finalize_collect_pv _ _
+
+/-- the algebraic core: trimming the operands first does not change the trimmed merge -/
+theorem C14_composite_trim_merge {V : Type} (f : (Nat × V) → (Nat × V) → (Nat × V)) (size : Nat)
+    (after : Option Int) (a b : KMap (Nat × V)) (ha : Supp a) (hb : Supp b) :
+    compTrim size after (KMap.merge f (compTrim size after a) (compTrim size after b))
+      = compTrim size after (KMap.merge f a b) :=
+  trim_merge f size after a b ha hb
+
 /-- merging after a serialisation round trip that is the identity on intermediate trees gives
 the same result (that postcard's round trip *is* the identity is tested by the harness, not
 proved) -/
@@ -507,6 +537,11 @@ example : evalAggPV Int (.hist ⟨0, 10, 0, 0, Option.none, Option.none⟩ .none
 example : (normRanges [(some 20, some 30), (some 0, some 10)]).map cutsOf = some [0, 10, 20, 30] := by decide
 example : normRanges [(some 0, some 10), (some 5, some 20)] = Option.none := by decide
 example : ∀ r ∈ [((some 20 : Option Int), (some 30 : Option Int)), (some 0, some 10)], EInt.lt (toERange r).1 (toERange r).2 = true := by decide
+/-- two segments with page size 1: each keeps only its smallest key, the merged page is still the global one -/
+example : finalize (M := Int) (.composite [⟨0, 5, false⟩] 1 Option.none .none)
+    (([[[(0, [3])], [(0, [1])]], [[(0, [2])], [(0, [1])]]].map
+        (collectSegComposite (M := Int) [⟨0, 5, false⟩] 1 Option.none .none)).foldl
+      (merge (.composite [⟨0, 5, false⟩] 1 Option.none .none)) (empty _)) = [(1, 2, ())] := by decide +kernel
 example : [0, 10, 20].Pairwise (fun a b : Int => a < b) := by decide
 example : ([1, 2, 3] : List Int).Nodup ∧ ∀ d ∈ exTDocs, ∀ k ∈ termKeys ⟨0, Option.none, 2, 2, 1, .countDesc⟩ d, k ∈ [1, 2, 3] := by
   decide
